@@ -25,7 +25,7 @@ func init() {
 		id:    "C08",
 		level: "exploration",
 		rule: "PRNG trees (depth 1-4 x fan-out 1-5, <=150 actors) with idle/busy/crashing nodes, nodes that stop themselves in Started, direct stops of inner nodes, third parties poisoning descendants concurrently with the shutdown, shutdown from the root or an inner node by Poison or Stop; " +
-			"oracle per parent/child edge: every Stopped of the child ends before the parent's final Stopped begins, no descendant is registered while an ancestor handles Stopped, all of it before the stop context is done; Children() == the model's live children, Parent() == the spawner; directed histories: child held inside Stopped while the parent is shut down, self-stopping children, a child id respawned while a third party stops it, a supervisor that spawns a replacement for every worker that says goodbye from its Stopped handler and is then stopped itself. Non-trivial = >=2 levels; distinct by (tree shape, behaviours, shutdown kind)",
+			"oracle per parent/child edge: every Stopped of the child ends before the parent's final Stopped begins, no descendant is registered while an ancestor handles Stopped, all of it before the stop context is done; Children() == the model's live children, Parent() == the spawner; directed histories: child held inside Stopped while the parent is shut down, self-stopping children, a child id respawned while a third party stops it, a supervisor that spawns a replacement for every worker that says goodbye from its Stopped handler and is then stopped itself, a parent stopped while a child is inside a Receive of 4 s (thorough: 12 s). Non-trivial = >=2 levels; distinct by (tree shape, behaviours, shutdown kind)",
 		assumptions: []string{
 			"the order of Stopped deliveries is taken from one atomic sequence counter incremented at the begin and at the end of every Stopped handler",
 			"a held Stopped handler (directed scenario) is released after 2 ms: the delay only gives an overtaking parent the chance to show itself, the verdict is taken on the sequence numbers",
@@ -38,7 +38,7 @@ func init() {
 			return []modeSpec{
 				{name: "tree", n: n, perChild: n / 16, timeout: 20 * time.Minute},
 				{name: "tree-chaos", n: n, perChild: n / 16, timeout: 20 * time.Minute, env: []string{"VERIF_HOOK=chaos", "VERIF_HOOK_PROB=30", "VERIF_HOOK_MAXUS=50", "VERIF_HOOK_LOCKUS=400"}},
-				{name: "directed", n: 48 * (1 + 7*b2int(tier == "thorough")), perChild: 8, timeout: 10 * time.Minute, env: []string{"VERIF_HOOK=chaos", "VERIF_HOOK_PROB=50", "VERIF_HOOK_MAXUS=50", "VERIF_HOOK_LOCKUS=400"}},
+				{name: "directed", n: 60 * (1 + 7*b2int(tier == "thorough")), perChild: 5, timeout: 10 * time.Minute, env: []string{"VERIF_HOOK=chaos", "VERIF_HOOK_PROB=50", "VERIF_HOOK_MAXUS=50", "VERIF_HOOK_LOCKUS=400"}},
 			}
 		},
 		run: func(c *caseCtx) caseResult {
@@ -532,7 +532,9 @@ func c08Directed(c *caseCtx) (res caseResult) {
 		return mon.count(func(x any) bool { ev, ok := x.(actor.ActorStoppedEvent); return ok && ev.PID.ID == id }) > 0
 	}
 	lg := newTlog()
-	switch c.n % 4 {
+	switch c.n % 5 {
+	case 4:
+		return c02Held(c, true)
 	case 3:
 		c08Supervisor(c, e, &res)
 	case 2:
